@@ -122,3 +122,34 @@ class Sync_report_c:
                                 0 <= i and i < _i,
                                 propstat[i][0] == get_status(properties, new_resource, requested[i].tag)
                                 and propstat[i][2].tag == requested[i].tag))))
+
+
+# ---------------------------------------------------------------------------- the tag properties (C08)
+ghost("res_ctag", ["opaque:Resource"], "str")
+
+
+@contract("iface:Resource.get_ctag", params={"self": "opaque:Resource"}, returns="str", assumed=True)
+class Resource_get_ctag:
+    """StoreBasedCollection.get_ctag (contracts/web_resources.py): the store's tag of the current state."""
+
+    def ensures(self, result):
+        return result == res_ctag(self)
+
+
+@contract("xandikos.webdav.GetCTagProperty.get_value",
+          params={"self": "obj:xandikos.webdav.GetCTagProperty", "href": "str", "resource": "opaque:Resource",
+                  "el": "obj:xml.Element", "environ": "dict[str,str]"}, modifies=["el"])
+class GetCTagProperty_get_value_c:
+    """C08: the getctag a PROPFIND shows is the collection's own tag, verbatim - a function of this
+    collection alone (seeded C08_5 mixed the tags of nested collections into it)."""
+
+    def ensures(resource, el):
+        return el.text == res_ctag(resource) and len(el) == old(len(el)) and effect_names() == []
+
+
+@contract("xandikos.sync.SyncTokenProperty.get_value",
+          params={"self": "obj:xandikos.sync.SyncTokenProperty", "href": "str", "resource": "opaque:Resource",
+                  "el": "obj:xml.Element", "environ": "dict[str,str]"}, modifies=["el"])
+class SyncTokenProperty_get_value_c:
+    def ensures(resource, el):
+        return el.text == res_sync_token(resource) and len(el) == old(len(el)) and effect_names() == []
